@@ -71,7 +71,11 @@ def hmac_consts(ctx, rep, rule):
         cv = facts.const_value(c)
         rep.check(rule, c, cv == v, "= %s" % v, "%s = %s; RFC 2104 / RFC 3414 require %s" % (c, cv, v), obligation=True)
     for c, v in (("auth::digest::IPAD_MASK", 0x36), ("auth::digest::OPAD_MASK", 0x5C), ("auth::digest::ZEROES", 0)):
-        cv = facts.const_value(c)
+        try:
+            cv = facts.const_value(c)
+        except Exception:
+            rep.info(rule, c, "table not present in this tree (the pad octets are then written another way; IPAD_VALUE / OPAD_VALUE are checked above)")
+            continue
         rep.check(rule, c, isinstance(cv, bytes) and len(cv) == 64 and set(cv) == {v}, "64 x 0x%02x" % v, "%s is not 64 octets of 0x%02x" % (c, v))
     # aliases: (digest, KS, SS)
     sizes = {"Md5": 16, "Sha1": 20}
@@ -136,9 +140,14 @@ def hmac_shape(ctx, rep, rule):
             ("k2 = key ^ opad", xor_key(args[3], "OPAD")), ("opad rest", mask(args[4], "auth::digest::OPAD_MASK")),
             ("inner digest", flow.mentions(args[5], lambda s: s[0] == "call" and (s[1] or "").endswith("Digest::finalize"))),
         ]
+        keyed = [ok for name, ok in checks if name in ("k1 = key ^ ipad", "ipad rest", "k2 = key ^ opad", "opad rest")]
+        if not any(keyed):
+            # none of the four pad pieces has the shape this rule knows (key xored in place into a pad block, a helper ...)
+            rep.inconclusive(rule, key + "|pads", "the padded key blocks are built in a shape the rule does not follow", body.loc())
+            checks = [c_ for c_ in checks if c_[0] in ("whole message", "inner digest")]
         for name, ok in checks:
-            rep.check(rule, key + "|" + name, ok, name, "HMAC step `%s` is fed %s" % (name, flow.fmt(args[checks.index((name, ok))])[:200]), body.loc(),
-                      obligation=True)
+            ai = {"k1 = key ^ ipad": 0, "ipad rest": 1, "whole message": 2, "k2 = key ^ opad": 3, "opad rest": 4, "inner digest": 5}[name]
+            rep.check(rule, key + "|" + name, ok, name, "HMAC step `%s` is fed %s" % (name, flow.fmt(args[ai])[:200]), body.loc(), obligation=True)
         # the two xor closures use IPAD_VALUE / OPAD_VALUE respectively, in this order (constant in the closure body, or
         # captured by the closure when the xor lives in a shared helper)
         vals = []
@@ -156,7 +165,8 @@ def hmac_shape(ctx, rep, rule):
                         cs = [s_[1] for s_ in flow.subterms(t) if s_[0] == "const" and isinstance(s_[1], int)]
                         v = cs[0] if cs else None
             vals.append(v)
-        rep.check(rule, key + "|xor constants", vals == [0x36, 0x5C], "inner pad 0x36, outer pad 0x5c", "xor constants are %s" % vals, body.loc(), obligation=True)
+        if any(keyed):
+            rep.check(rule, key + "|xor constants", vals == [0x36, 0x5C], "inner pad 0x36, outer pad 0x5c", "xor constants are %s" % vals, body.loc(), obligation=True)
     # MAC copy: data[offset..offset+SS] <- d2[0..SS]
     cp = [b for b in body.calls() if (callee_path(b.term) or "").endswith("copy_from_slice")]
     if len(cp) == 1:
@@ -537,7 +547,33 @@ def key_ffi(ctx, rep, rule):
     ps = pyr.paths(ctx, rep, rule, "user", "KeyType", "_mask")
     if ps:
         r = sorted({pysym_text(p.ret) for p in ps if p.done == "return"})
-        rep.check(rule, "user.KeyType._mask", r == ["self.value << 6"], "value << 6 (bits 7-6 of the algorithm code)", "_mask returns %s" % r,
+        def _mask_ok(exprs):
+            # the same number for the three key types, however it is spelled (value << 6, value * 64 ...)
+            import ast as _a
+            if len(exprs) != 1:
+                return False
+            try:
+                tree = _a.parse(exprs[0], mode="eval").body
+            except SyntaxError:
+                return False
+            def ev(n, val):
+                if isinstance(n, _a.Constant) and isinstance(n.value, int):
+                    return n.value
+                if isinstance(n, _a.Attribute) and _a.unparse(n) == "self.value":
+                    return val
+                if isinstance(n, _a.BinOp):
+                    a, b = ev(n.left, val), ev(n.right, val)
+                    if a is None or b is None:
+                        return None
+                    ops = {_a.LShift: lambda x, y: x << y, _a.Mult: lambda x, y: x * y, _a.BitOr: lambda x, y: x | y, _a.Add: lambda x, y: x + y,
+                           _a.BitAnd: lambda x, y: x & y}
+                    f = ops.get(type(n.op))
+                    return f(a, b) if f else None
+                if isinstance(n, _a.Call) and _a.unparse(n.func) == "int" and len(n.args) == 1:
+                    return ev(n.args[0], val)
+                return None
+            return all(ev(tree, v) == (v << 6) for v in (0, 1, 2, 3))
+        rep.check(rule, "user.KeyType._mask", r == ["self.value << 6"] or _mask_ok(r), "value << 6 (bits 7-6 of the algorithm code)", "_mask returns %s" % r,
                   py.loc("user", pyr.fn_node(ctx, "user", "KeyType", "_mask")), obligation=True)
     for fn, keyattr, present, absent in (("get_auth_alg", "auth_key", "self.auth_key.AUTH_ALG | self.auth_key.key_type._mask", "0"),
                                          ("get_priv_alg", "priv_key", "self.priv_key.PRIV_ALG | self.priv_key.key_type._mask", "0"),
@@ -774,8 +810,12 @@ def priv_layout(ctx, rep, rule):
                         src = flow.fmt(x)[:60]
                 got.append(((_cv(facts, r[0]), _cv(facts, r[1])), src))
         want = [(rg, src) for rg, src, _ in exp]
-        rep.check(rule, "%s::encrypt|salt layout" % nm, got == want, "priv_params = %s" % want,
-                  "privacy parameters are assembled as %s, the RFC layout is %s (arg3 = engine boots, arg4 = engine time)" % (got, want), body.loc(), obligation=True)
+        if not got:
+            # nothing this rule recognises as a copy into priv_params (built as one integer, through an iterator chain ...)
+            rep.inconclusive(rule, "%s::encrypt|salt layout" % nm, "no piecewise copy into priv_params found: the layout is not decided in this shape", body.loc())
+        else:
+            rep.check(rule, "%s::encrypt|salt layout" % nm, got == want, "priv_params = %s" % want,
+                      "privacy parameters are assembled as %s, the RFC layout is %s (arg3 = engine boots, arg4 = engine time)" % (got, want), body.loc(), obligation=True)
         # cipher construction
         nf = [b for b in body.calls() if (b.term["callee"].get("path") or "").endswith(("KeyIvInit::new_from_slices", "KeyIvInit::new"))]
         if len(nf) == 1:
@@ -835,8 +875,11 @@ def priv_layout(ctx, rep, rule):
                     src = ".".join(fp(s)) if fp(s) else flow.fmt(s)[:50]
                 got.append(((_cv(facts, r[0]), _cv(facts, r[1])), src))
         want = [((None, 4), "arg3.engine_boots"), ((4, 8), "arg3.engine_time"), ((8, None), "arg3.privacy_params")]
-        rep.check(rule, "Aes128Key::decrypt|iv layout", got == want, "IV = usm.boots | usm.time | usm.privacy_params",
-                  "the decryption IV is assembled as %s, RFC 3826 requires %s" % (got, want), body.loc(), obligation=True)
+        if not got:
+            rep.inconclusive(rule, "Aes128Key::decrypt|iv layout", "no piecewise copy into the IV found: the layout is not decided in this shape", body.loc())
+        else:
+            rep.check(rule, "Aes128Key::decrypt|iv layout", got == want, "IV = usm.boots | usm.time | usm.privacy_params",
+                      "the decryption IV is assembled as %s, RFC 3826 requires %s" % (got, want), body.loc(), obligation=True)
     body = _body(ctx, rep, rule, "<%s as privacy::SnmpPriv>::decrypt" % DES)
     if body is not None:
         _des_iv(rep, rule, body, flow.Prov(body), "DesKey::decrypt", ("arg3", "privacy_params"))
@@ -940,12 +983,32 @@ def salt_counter(ctx, rep, rule):
                       "the counter is advanced with %s: +1 modulo 2^w is what makes every value distinct over 2^w messages" % flow.fmt(tt), enc.loc(line), obligation=True)
         # every exit passes the increment once the salt was copied out
         uses = [b.idx for b in enc.calls() if _is_call(prov.call_term(b.term), "::to_be_bytes") and fp(prov.call_term(b.term)[2][0]) == ("arg1", "salt_value")]
+        if not uses:
+            # the salt may leave through another conversion (`salt_value as u128`, a shift into a wider word ...): any read
+            # of the field that is not the operand of the increment
+            def reads_salt(op):
+                pl = op.get("move") or op.get("copy") if isinstance(op, dict) else None
+                return bool(pl) and pl["l"] == 1 and any(isinstance(e, dict) and e.get("name") == "salt_value" for e in pl["p"])
+            inc_blocks = {b.idx for b in enc.calls() if (callee_path(b.term) or "").endswith("::wrapping_add") and b.term["args"] and reads_salt(b.term["args"][0])}
+            for blk in enc.live_blocks():
+                hit = False
+                for st_ in blk.stmts:
+                    if st_["k"] == "assign":
+                        rv_ = st_["rv"]
+                        hit = hit or any(reads_salt(rv_.get(k_)) for k_ in ("op", "a", "b") if rv_.get(k_) is not None)
+                if blk.term and blk.term["k"] == "call" and blk.idx not in inc_blocks:
+                    hit = hit or any(reads_salt(a_) for a_ in blk.term["args"])
+                if hit:
+                    uses.append(blk.idx)
         rets = enc.returns()
         cut = {(w[0], s) for w in ws for s in enc.blocks[w[0]].succs()}
         # statements inside the same block: the write happens in block w[0]; leaving that block counts as crossing
         ok = bool(uses) and not (cfg.reachable(enc, uses, cut=cut) - {w[0] for w in ws}) & set(rets) if uses else False
-        rep.check(rule, "%s::encrypt|no-exit-without-increment" % nm, ok, "no return between using the salt and advancing it",
-                  "encrypt can return after copying the salt into the message without advancing the counter", enc.loc(), obligation=True)
+        if not uses:
+            rep.inconclusive(rule, "%s::encrypt|no-exit-without-increment" % nm, "no read of salt_value found besides the increment", enc.loc())
+        else:
+            rep.check(rule, "%s::encrypt|no-exit-without-increment" % nm, ok, "no return between using the salt and advancing it",
+                      "encrypt can return after copying the salt into the message without advancing the counter", enc.loc(), obligation=True)
         al = facts.body("<%s as privacy::SnmpPriv>::as_localized" % adt)
         if al is not None:
             p2 = flow.Prov(al)
@@ -1389,6 +1452,10 @@ def msg_flags(ctx, rep, rule):
             consts[nm] = facts.const_value("snmp::msg::v3::msg::" + nm)
         except Exception:
             consts[nm] = None
+        if consts[nm] is None:
+            # the named constant is gone (the bits may be written as literals or as arithmetic): the tables below decide
+            rep.info(rule, "snmp::msg::v3::msg::" + nm, "constant not present in this tree")
+            continue
         rep.check(rule, "snmp::msg::v3::msg::" + nm, consts[nm] == want, "= %d (RFC 3412 msgFlags)" % want, "%s = %s" % (nm, consts[nm]))
     table = {}
     for a in (0, 1):
@@ -1512,6 +1579,43 @@ def msg_flags_decode(ctx, rep, rule):
                   ", ".join("%s differs from bit %d for octet 0x%02x" % (f, bits[f].bit_length() - 1, v) for f, v in sorted(bad.items())), body.loc(), obligation=True)
 
 
+def guard_range(body, prov, block_idx, src):
+    """(lo, hi) of the value `src` (a Prov term) at `block_idx`, from the guards that every way to the block crosses:
+    `(a..=b).contains(&v)`, `(a..b).contains(&v)` and comparisons of v with constants.  None where nothing is known."""
+    while src[0] == "cast":
+        src = src[1]
+    lo, hi = None, None
+    for g in flow.guards(body, prov):
+        for edge, pol in ((g.true_edge, True), (g.false_edge, False)):
+            if not cfg.must_pass(body, [0], [block_idx], {edge}):
+                continue
+            t = g.term
+            if pol and t[0] == "call" and (t[1] or "").split("::")[-1] == "contains" and len(t[2]) == 2 and t[2][1] == src:
+                r_ = t[2][0]
+                while r_[0] == "promoted":
+                    r_ = r_[1]
+                if r_[0] == "call" and (r_[1] or "").endswith("RangeInclusive::<Idx>::new") and all(x[0] == "const" for x in r_[2]):
+                    lo, hi = max(lo, r_[2][0][1]) if lo is not None else r_[2][0][1], min(hi, r_[2][1][1]) if hi is not None else r_[2][1][1]
+                elif r_[0] == "agg" and (r_[1] or "").endswith("ops::Range") and len(r_) > 3:
+                    fs = dict(r_[3])
+                    a_, b_ = fs.get("start"), fs.get("end")
+                    if a_ and b_ and a_[0] == "const" and b_[0] == "const":
+                        lo, hi = max(lo, a_[1]) if lo is not None else a_[1], min(hi, b_[1] - 1) if hi is not None else b_[1] - 1
+            if t[0] == "bin" and t[1] in ("Lt", "Le", "Gt", "Ge") and t[2] == src and t[3][0] == "const":
+                op_, c_ = t[1], t[3][1]
+                if not pol:
+                    op_ = {"Lt": "Ge", "Le": "Gt", "Gt": "Le", "Ge": "Lt"}[op_]
+                if op_ == "Lt":
+                    hi = c_ - 1 if hi is None else min(hi, c_ - 1)
+                elif op_ == "Le":
+                    hi = c_ if hi is None else min(hi, c_)
+                elif op_ == "Gt":
+                    lo = c_ + 1 if lo is None else max(lo, c_ + 1)
+                else:
+                    lo = c_ if lo is None else max(lo, c_)
+    return lo, hi
+
+
 def literal_int_tlv(ctx, rep, rule):
     """An INTEGER written as a literal TLV `[02, 01, x as u8]` (a "small value" fast path beside SnmpInt::push_ber) is right
     only for 0..=127: the single content octet is a two's-complement number, 128..=255 read back as -128..=-1.  The range
@@ -1554,38 +1658,7 @@ def literal_int_tlv(ctx, rep, rule):
                     continue
                 # range of the value where the literal is built: from the guards every way to it crosses (a..=b contains,
                 # comparisons with constants), else from the numeric analysis (cast facts)
-                src = prov.operand(site[2]["rv"]["op"])
-                while src[0] == "cast":
-                    src = src[1]
-                lo, hi = None, None
-                for g in flow.guards(body, prov):
-                    for edge, pol in ((g.true_edge, True), (g.false_edge, False)):
-                        if not cfg.must_pass(body, [0], [blk.idx], {edge}):
-                            continue
-                        t = g.term
-                        if pol and t[0] == "call" and (t[1] or "").split("::")[-1] == "contains" and len(t[2]) == 2 and t[2][1] == src:
-                            r_ = t[2][0]
-                            while r_[0] == "promoted":
-                                r_ = r_[1]
-                            if r_[0] == "call" and (r_[1] or "").endswith("RangeInclusive::<Idx>::new") and all(x[0] == "const" for x in r_[2]):
-                                lo, hi = max(lo, r_[2][0][1]) if lo is not None else r_[2][0][1], min(hi, r_[2][1][1]) if hi is not None else r_[2][1][1]
-                            elif r_[0] == "agg" and (r_[1] or "").endswith("ops::Range") and len(r_) > 3:
-                                fs = dict(r_[3])
-                                a_, b_ = fs.get("start"), fs.get("end")
-                                if a_ and b_ and a_[0] == "const" and b_[0] == "const":
-                                    lo, hi = max(lo, a_[1]) if lo is not None else a_[1], min(hi, b_[1] - 1) if hi is not None else b_[1] - 1
-                        if t[0] == "bin" and t[1] in ("Lt", "Le", "Gt", "Ge") and t[2] == src and t[3][0] == "const":
-                            op_, c_ = t[1], t[3][1]
-                            if not pol:
-                                op_ = {"Lt": "Ge", "Le": "Gt", "Gt": "Le", "Ge": "Lt"}[op_]
-                            if op_ == "Lt":
-                                hi = c_ - 1 if hi is None else min(hi, c_ - 1)
-                            elif op_ == "Le":
-                                hi = c_ if hi is None else min(hi, c_)
-                            elif op_ == "Gt":
-                                lo = c_ + 1 if lo is None else max(lo, c_ + 1)
-                            else:
-                                lo = c_ if lo is None else max(lo, c_)
+                lo, hi = guard_range(body, prov, blk.idx, prov.operand(site[2]["rv"]["op"]))
                 if lo is None or hi is None:
                     if res is None:
                         from .. import numrun
